@@ -467,7 +467,8 @@ def parse_url(url_text: bytes) -> list[Node]:
             )
         )
     if url.fragment:
-        offset += 1  # fragment starts with #
+        # The fragment is the last part of the url, the query before it can be present but empty ("?#")
+        offset = len(url_text) - len(url.fragment)
         out.append(
             Node(
                 "network.url.fragment",
